@@ -20,7 +20,7 @@ DENSITY_FUNCTIONS = [
     tables.IFP + ".update_log_q", tables.IFP + ".draw_from_flows", tables.IFP + ".compute_kl_between_proposals", tables.IFP + ".draw_from_prior", tables.IFP + ".compute_meta_proposal_samples",
 ]
 # Jacobians that are only used as a finiteness mask (reviewed): the density is computed from the companion forward Jacobian
-MASK_ONLY_OK = {(tables.IFP + ".draw", "log_j_inv"), (tables.IFP + ".draw_from_flows", "log_j_inv"), (tables.FP + ".verify_rescaling", "log_J"), (tables.FP + ".verify_rescaling", "log_J_inv"), (tables.IFP + ".verify_rescaling", "log_j"), (tables.IFP + ".verify_rescaling", "log_j_inv"), (tables.IFP + ".draw", "log_j"), (tables.IFP + ".draw_from_flows", "log_j")}
+MASK_ONLY_OK = {(tables.IFP + ".draw", "self.inverse_rescale"), (tables.IFP + ".draw_from_flows", "self.inverse_rescale")}
 
 
 def run(ctx):
@@ -40,7 +40,7 @@ def run(ctx):
         for s, v, tag, sg, text in r.uses:
             n_use += 1
             want = 1 if tag == sign.FWD else -1
-            ctx.ob("R-SIGN", "C08.1", f, f"Jacobian `{v}` of the {tag.split(' (')[0]} map enters the density with {'+' if want > 0 else '-'}", sg == want,
+            ctx.ob("R-SIGN", "C08.1", f, f"Jacobian returned by `{r.origin.get(v, '?')}` ({tag.split(' (')[0]} map) enters the density with {'+' if want > 0 else '-'}", sg == want,
                    f"`{text}` ({tag.split(':')[0]})", node=s)
         for c, kw, v, tag in r.passed:
             passed.append((f, c, kw, v, tag))
@@ -50,7 +50,8 @@ def run(ctx):
             masks = {m[0] for m in r.mask_only}
             used = {u[1] for u in r.uses} | {p_[2] for p_ in r.passed}
             for m in masks - used:
-                ctx.ob("R-SIGN", "C08.1", f, f"Jacobian `{m}` used only as a finiteness mask is a reviewed case", (f.qual, m) in mask_ok, "only np.isfinite(...) of it is used; the density must then come from the companion Jacobian", node=f.node)
+                org = r.origin.get(m, "?")
+                ctx.ob("R-SIGN", "C08.1", f, f"Jacobian of `{org}` used only as a finiteness mask is a reviewed case", (f.qual, org) in mask_ok, "only np.isfinite(...) of it is used; the density must then come from the companion Jacobian", node=f.node)
             if not r.sources and not r.uses and not f.qual.endswith("draw_from_prior"):
                 ctx.ob("R-SIGN", "C08.1", f, "density function obtains a Jacobian from a directional map", False, "no directional call found: the rule would pass vacuously")
     ctx.extra["jacobian_sources"] = n_src
@@ -88,7 +89,11 @@ def run(ctx):
     okz = len(inv) == 1 and any(src(b["z"]) == src(inv[0][1]["z"]) for n, b in lat) and src(inv[0][1]["z"]) == "z"
     ctx.ob("R-SIB", "C08.2", sp, "the latent density is evaluated at the same z that is pushed through the inverse transform", okz, "")
     rets = [n for n in walk_no_nested(sp.node) if isinstance(n, ast.Return)]
-    ctx.ob("R-SIB", "C08.2", sp, "returns the generated samples with the density computed for them", len(rets) == 1 and src(rets[0].value) == "(x, log_prob)", "")
+    okret = False
+    if len(rets) == 1 and isinstance(rets[0].value, ast.Tuple) and len(rets[0].value.elts) == 2 and inv and lat:
+        rx, rp = src(rets[0].value.elts[0]), src(rets[0].value.elts[1])
+        okret = rx == src(inv[0][1]["x"]) and rp in [src(b["lp"]) for n, b in lat]
+    ctx.ob("R-SIB", "C08.2", sp, "returns the generated samples with the density computed for them", okret, "")
     ctx.floor("C08.2", 9)
 
     # ---- C08.3 overrides use the parameters the result depends on ------------------------------
